@@ -611,6 +611,10 @@ pub fn seqno_marks(ex: &mut Exec) -> R<()> {
 // ---------------------------------------------------------------------------------------------
 // C20
 
+struct DirOnly {
+    dir: PathBuf,
+}
+
 pub fn version_files(t: &AnyTree) -> Vec<PathBuf> {
     let v = t.current_version();
     let mut out: Vec<PathBuf> = v.iter_tables().map(|t| (*t.path).clone()).collect();
@@ -668,6 +672,18 @@ pub fn files(ex: &mut Exec) -> R<()> {
 }
 
 pub fn reclamation(ex: &Exec, cur: &[PathBuf], cur_id: u64, when: &str) -> R<()> {
+    reclamation_dir(&ex.dir, cur, cur_id, when)
+}
+
+/// directory-vs-version comparison for a tree opened at `dir`
+pub fn reclamation_of(dir: &std::path::Path, t: &AnyTree, when: &str) -> R<()> {
+    let cur = version_files(t);
+    let id = t.current_version().id();
+    reclamation_dir(dir, &cur, id, when)
+}
+
+pub fn reclamation_dir(dir: &std::path::Path, cur: &[PathBuf], cur_id: u64, when: &str) -> R<()> {
+    let ex = DirOnly { dir: dir.to_path_buf() };
     let mut expected: Vec<PathBuf> = cur.to_vec();
     expected.push(ex.dir.join(format!("v{cur_id}")));
     expected.sort();
